@@ -4,6 +4,7 @@ TABLE rules over edp_client::control: enum discriminants == TryFrom<u8> arms ==
 spec; from_term (tag, arity guard, element->field map) vs to_term vs into_term vs
 spec; Generic fallback; CAST and PANIC(index) obligations inside those functions.
 """
+import re
 import json, os
 from ..core import (callee_of, callee_names, is_call_to, fold, dominating_edges, exclusive_blocks,
                     snake, camel_from_upper)
@@ -205,6 +206,11 @@ def _src(B, o, depth):
             return ('other', 'index ?')
         if name.endswith('to_vec'):
             return _src(B, B.origin(t['args'][0]), depth + 1)
+        m_ = re.search(r'TryFrom<(\w+)> for (\w+)>::try_from$', name) or re.search(r'TryInto<(\w+)> for (\w+)>::try_into$', name)
+        if m_ and t['args']:
+            # a checked conversion is a cast that cannot lose anything
+            fr_, to_ = (m_.group(1), m_.group(2)) if 'TryFrom' in name else (m_.group(2), m_.group(1))
+            return ('cast', fr_, to_, _src(B, B.origin(t['args'][0]), depth + 1))
         if name.endswith('OwnedTerm::as_integer'):
             return ('as_integer', _src(B, B.origin(t['args'][0]), depth + 1))
         # a helper of the crate that returns one element of the sequence it is given: helper(elements, k) == elements[k]
